@@ -417,15 +417,29 @@ class RouteCQC:
 
             while process_executable_two_qubit_ops(timestep):
                 chosen_swaps: tuple[QidIntPair, ...] | None = None
-                for strat in strats:
-                    chosen_swaps = strat(mm, two_qubit_ops_ints, timestep, lookahead_radius)
-                    if chosen_swaps is not None:
-                        break
-
-                if chosen_swaps is None or chosen_swaps in seen:
-                    chosen_swaps = cls._brute_force_strategy(mm, two_qubit_ops_ints, timestep)
+                # Directed device graphs: an operation whose qubits are joined only by the reverse
+                # edge becomes executable by swapping its own two qubits. The cost function uses
+                # undirected distances and cannot prefer that swap, so pick it directly.
+                reversed_op = next(
+                    (
+                        op_ints
+                        for op_ints in two_qubit_ops_ints[timestep]
+                        if mm.dist_on_device(*op_ints, undirected=True) == 1
+                    ),
+                    None,
+                )
+                if reversed_op is not None:
+                    chosen_swaps = (reversed_op,)
                 else:
-                    seen.add(chosen_swaps)
+                    for strat in strats:
+                        chosen_swaps = strat(mm, two_qubit_ops_ints, timestep, lookahead_radius)
+                        if chosen_swaps is not None:
+                            break
+
+                    if chosen_swaps is None or chosen_swaps in seen:
+                        chosen_swaps = cls._brute_force_strategy(mm, two_qubit_ops_ints, timestep)
+                    else:
+                        seen.add(chosen_swaps)
 
                 for swap in chosen_swaps:
                     inserted_swap = mm.mapped_op(
